@@ -6,7 +6,8 @@ itself defined in src/error.rs, the variants of that enum (two levels below `Dia
 `#[cfg(feature = ..)]` gate of each variant. From src/transport/manager/address.rs: the constants of
 `mod scores` and the arms of the `match` in `AddressStore::error_score`, each arm as a *path prefix*
 of variant indices (`DialError::AddressError(_)` -> [1]; `DialError::DnsError(DnsError::ResolveError(_))`
--> [2; 0]; `_` -> []) with the value of the score expression.
+-> [2; 0]; `_` -> []) with the value of the score expression. From src/transport/manager/*.rs: every place
+that writes into a peer's address store (`store_sites`).
 
 Written to coq/gen/DialErrors.v (and the names also to harness/src/gen_c10_errors.rs) on every check. The model's `error_score` *interprets* the arm table
 (first matching prefix, as Rust's `match`), and coq/C10 proves `variants_in_sync` (the model's
@@ -27,7 +28,7 @@ ERR = "src/error.rs"
 ADDR = "src/transport/manager/address.rs"
 
 sys.path.insert(0, HERE)
-from gen_c18_sites import blank, match_brace  # noqa: E402
+from gen_c18_sites import blank, match_brace, strip_tests, enclosing_fn  # noqa: E402
 
 I32_MIN, I32_MAX = -(1 << 31), (1 << 31) - 1
 
@@ -151,13 +152,52 @@ def pattern_path(pat, tables):
             return None
 
 
+MGR = "src/transport/manager"
+
+
+def strip_verif(src, clean):
+    """Blank the items / statements under `#[cfg(feature = "verif")]` (hooks are not part of the crate)."""
+    out = list(clean)
+    for m in re.finditer(r'#\[cfg\(\s*feature\s*=\s*"verif"\s*\)\]', src):
+        j = m.end()
+        while j < len(clean) and clean[j] not in "{;":
+            j += 1
+        end = match_brace(clean, j) if j < len(clean) and clean[j] == "{" else j + 1
+        for k in range(m.start(), min(end, len(clean))):
+            if out[k] != "\n":
+                out[k] = " "
+    return "".join(out)
+
+
+def store_sites(repo):
+    """Every non-test, non-hook place of src/transport/manager/*.rs (address.rs itself excluded) that
+    writes into a peer's address store or replaces/removes a peer's context:
+    (file, enclosing function, what)."""
+    sites = []
+    d = os.path.join(repo, MGR)
+    for f in sorted(os.listdir(d)):
+        if not f.endswith(".rs") or f.startswith("verif") or f == "address.rs":
+            continue
+        src = open(os.path.join(d, f)).read()
+        clean = strip_tests(strip_verif(src, blank(src)))
+        for what, rx in (("insert", r"\.\s*addresses\s*\.\s*insert\s*\("),
+                         ("extend", r"\.\s*addresses\s*\.\s*extend\s*\("),
+                         ("assign", r"\.\s*addresses\s*=[^=]"),
+                         ("peers.insert", r"\bpeers\s*\.\s*insert\s*\("),
+                         ("peers.remove", r"\bpeers\s*\.\s*remove\s*\(")):
+            for m in re.finditer(rx, clean):
+                sites.append((m.start(), f, enclosing_fn(clean, m.start()) or "?", what))
+    sites.sort(key=lambda t: (t[1], t[0]))
+    return [(f, fn, what) for _, f, fn, what in sites]
+
+
 def generate(repo):
     missing = []
     try:
         src = open(os.path.join(repo, ERR)).read()
         asrc = open(os.path.join(repo, ADDR)).read()
     except OSError as e:
-        write([], [], [], [])
+        write([], [], [], [], [])
         return {}, [("C10_DIAL_ERROR_LEAVES", ERR, str(e))]
     clean = blank(src)
     tables = {}
@@ -227,21 +267,28 @@ def generate(repo):
                     arms.append((path, val))
     else:
         missing.append(("C10_ERROR_SCORE_ARMS", ADDR, "fn error_score / its match not found"))
-    write(variants, gates, arms, sorted(consts.items()))
+    try:
+        sites = store_sites(repo)
+    except OSError as e:
+        sites = []
+        missing.append(("C10_STORE_SITES", MGR, str(e)))
+    if not sites:
+        missing.append(("C10_STORE_SITES", MGR, "no address-store write site found"))
+    write(variants, gates, arms, sorted(consts.items()), sites)
     leaves = 0
     for _, l2 in variants:
         if not l2:
             leaves += 1
         for _, l3 in l2:
             leaves += max(1, len(l3))
-    return {"C10_DIAL_ERROR_LEAVES": leaves, "C10_ERROR_SCORE_ARMS": len(arms)}, missing
+    return {"C10_DIAL_ERROR_LEAVES": leaves, "C10_ERROR_SCORE_ARMS": len(arms), "C10_STORE_SITES": len(sites)}, missing
 
 
 def coq_z(v):
     return "(%d)%%Z" % v
 
 
-def write(variants, gates, arms, consts):
+def write(variants, gates, arms, consts, sites):
     def strs(l):
         return "[" + "; ".join('"%s"' % x for x in l) + "]"
 
@@ -272,6 +319,11 @@ def write(variants, gates, arms, consts):
         "(* the constants of address.rs `mod scores` *)",
         "Definition score_consts : list (string * Z) :=",
         "  [" + "; ".join('("%s", %s)' % (n, coq_z(v)) for n, v in consts) + "].",
+        "",
+        "(* every non-test, non-hook place of src/transport/manager/*.rs (address.rs excluded) that writes",
+        "   into a peer's address store or replaces/removes a peer context: (file, function, what) *)",
+        "Definition store_sites : list (string * string * string) :=",
+        "  [" + ";\n   ".join('("%s", "%s", "%s")' % t for t in sites) + "].",
     ]
     text = "\n".join(lines) + "\n"
     os.makedirs(os.path.dirname(OUT), exist_ok=True)
